@@ -285,7 +285,7 @@ def c2q(w1, w2):
     b, ch, r, c = w1r.shape
 
     # Create new empty tensor and fill it
-    y = w1r.new_zeros((b, ch, r*2, c*2), requires_grad=w1r.requires_grad)
+    y = w1r.new_zeros((b, ch, r*2, c*2))
     y[:, :, ::2,::2] = x1
     y[:, :, ::2, 1::2] = x2
     y[:, :, 1::2, ::2] = x3
